@@ -15,6 +15,7 @@ import (
 	"fmt"
 	"os"
 	"sort"
+	"strconv"
 	"strings"
 
 	"github.com/Eyevinn/mp4ff/bits"
@@ -464,6 +465,28 @@ func runHistory(a cagg, ops string) string {
 				} else {
 					o = bytesObs(sw.Bytes())
 				}
+			case 'a', 'b', 'c', 'd':
+				// a writer sized from Size(): exactly, one spare byte, 64 spare bytes, twice (XSizedSW of the model)
+				sz := a.size()
+				mul, add := uint64(1), uint64(0)
+				switch op {
+				case 'b':
+					add = 1
+				case 'c':
+					add = 64
+				case 'd':
+					mul = 2
+				}
+				if sz > capLimit || mul*sz+add > capLimit {
+					o = "S" + hx.HexU(sz) // no writer of that size is allocated: the operation was Size() alone
+					break
+				}
+				sw := bits.NewFixedSliceWriter(int(mul*sz + add))
+				if err := a.encsw(sw); err != nil {
+					o = "E"
+				} else {
+					o = bytesObs(sw.Bytes())
+				}
 			}
 		})
 		var sb strings.Builder
@@ -481,11 +504,14 @@ func runHistory(a cagg, ops string) string {
 // is taken generously from the token size of the case
 var swCapacity = 1 << 20
 
+// above this capacity the sized-writer operations degrade to Size() (same rule in ocaml/c02_driver.ml)
+const capLimit = 1 << 22
+
 func genOps(r *hx.Rng) string {
 	n := r.Range(2, 7)
 	b := make([]byte, n)
 	for i := range b {
-		b[i] = "sieewe"[r.Intn(6)]
+		b[i] = "sieeweabcd"[r.Intn(10)]
 	}
 	return string(b)
 }
@@ -884,6 +910,7 @@ func cmdCorr(seed uint64, n int, repo string) {
 		}
 	}
 	cmdCorrSenc(r, n/2+20, repo)
+	cmdCorrSencDecoded(r, n/2+40)
 	var ks []string
 	for k, v := range corrStats {
 		ks = append(ks, fmt.Sprintf("%s=%d", k, v))
@@ -917,12 +944,8 @@ func sencFields(t *tw, s *mp4.SencBox) {
 			t.u(uint64(p.BytesOfProtectedData))
 		}
 	}
-	if s.ReadButNotParsed() {
-		t.a("1")
-		t.hexb(mp4.VerifC02SencRaw(s))
-	} else {
-		t.a("0")
-	}
+	t.b(s.ReadButNotParsed())
+	t.hexb(mp4.VerifC02SencRaw(s))
 	t.u(mp4.VerifC02SencReadSize(s))
 }
 
@@ -960,9 +983,190 @@ func sencHistory(s *mp4.SencBox, ops string) string {
 			obs = append(obs, "P")
 			break
 		}
-		obs = append(obs, fmt.Sprintf("%s/%x", o, s.Flags))
+		obs = append(obs, o+"/"+sencDig(s))
 	}
 	return strings.Join(obs, " ")
+}
+
+// histories on a single box: the sized-writer operations are plain EncodeSW
+func sencOps(r *hx.Rng) string {
+	return strings.Map(func(c rune) rune {
+		if c >= 'a' && c <= 'd' {
+			return 'w'
+		}
+		return c
+	}, genOps(r))
+}
+
+// the state a step leaves: flags and what the second decoding phase sets
+func sencDig(s *mp4.SencBox) string {
+	np := 0
+	if s.ReadButNotParsed() {
+		np = 1
+	}
+	return fmt.Sprintf("%x.%x.%d.%d.%d", s.Flags, s.GetPerSampleIVSize(), len(s.IVs), len(s.SubSamples), np)
+}
+
+// genSencPayload makes the payload of a senc box (version/flags, sample count, per-sample data): mostly well-formed
+// for some (perSampleIVSize, sub-sample layout), then damaged: bytes appended or cut, the count changed or zeroed,
+// flags changed, version set.  Returns the payload and the perSampleIVSize it was made for.
+func genSencPayload(r *hx.Rng) ([]byte, int) {
+	ivs := r.Pick(0, 8, 8, 16)
+	subs := r.Intn(2) == 0
+	n := r.Pick(0, 1, 2, 2, 3, 5)
+	var data []byte
+	for i := 0; i < n; i++ {
+		data = append(data, r.Bytes(ivs, nil)...)
+		if subs {
+			k := r.Pick(0, 1, 1, 2, 3)
+			data = append(data, byte(k>>8), byte(k))
+			data = append(data, r.Bytes(6*k, nil)...)
+		}
+	}
+	flags := uint32(0)
+	if subs {
+		flags = 2
+	}
+	count := uint32(n)
+	version := byte(0)
+	for k := r.Pick(0, 0, 1, 1, 2); k > 0; k-- {
+		switch r.Intn(8) {
+		case 0:
+			data = append(data, r.Bytes(r.Pick(1, 1, 2, 7, 8, 16, 256), nil)...)
+		case 1:
+			if len(data) > 0 {
+				cut := r.Range(1, 9)
+				if cut > len(data) {
+					cut = len(data)
+				}
+				data = data[:len(data)-cut]
+			}
+		case 2:
+			count = 0
+		case 3:
+			count += uint32(r.Range(1, 3))
+		case 4:
+			flags ^= 2
+		case 5:
+			flags |= uint32(r.Pick(1, 4, 0x100, 0x800000))
+		case 6:
+			if r.Intn(4) == 0 {
+				version = byte(r.Pick(1, 2, 255))
+			}
+		default:
+			if count > 0 {
+				count--
+			}
+		}
+	}
+	pl := []byte{version, byte(flags >> 16), byte(flags >> 8), byte(flags), byte(count >> 24), byte(count >> 16), byte(count >> 8), byte(count)}
+	if r.Intn(40) == 0 {
+		pl = pl[:r.Intn(8)] // shorter than the fields
+		return pl, ivs
+	}
+	return append(pl, data...), ivs
+}
+
+// sencBoxBytes wraps a payload in a compact or a large-size header
+func sencBoxBytes(pl []byte, large bool) ([]byte, uint64, uint64) {
+	if large {
+		size := uint64(16 + len(pl))
+		b := []byte{0, 0, 0, 1, 's', 'e', 'n', 'c', 0, 0, 0, 0, byte(size >> 24), byte(size >> 16), byte(size >> 8), byte(size)}
+		return append(b, pl...), size, 16
+	}
+	size := uint64(8 + len(pl))
+	b := []byte{byte(size >> 24), byte(size >> 16), byte(size >> 8), byte(size), 's', 'e', 'n', 'c'}
+	return append(b, pl...), size, 8
+}
+
+func decodeSenc(box []byte, sr bool) (s *mp4.SencBox, outcome string) {
+	p := hx.Try(func() {
+		var b mp4.Box
+		var err error
+		if sr {
+			b, err = mp4.DecodeBoxSR(0, bits.NewFixedSliceReader(box))
+		} else {
+			b, err = mp4.DecodeBox(0, bytes.NewReader(box))
+		}
+		if err != nil {
+			outcome = "E"
+			return
+		}
+		var ok bool
+		if s, ok = b.(*mp4.SencBox); !ok {
+			outcome = "E"
+		}
+	})
+	if p != "" {
+		return nil, "P"
+	}
+	return s, outcome
+}
+
+// pivChoice: the perSampleIVSize handed to ParseReadBox ("x": no second phase)
+func pivChoice(r *hx.Rng, made int) string {
+	switch r.Intn(6) {
+	case 0:
+		return "x"
+	case 1, 2:
+		return "0"
+	case 3:
+		return fmt.Sprintf("%x", r.Pick(8, 16, 1, 4, 255))
+	default:
+		return fmt.Sprintf("%x", made)
+	}
+}
+
+func sencParse(s *mp4.SencBox, piv string) string {
+	if piv == "x" {
+		return "-"
+	}
+	v, _ := strconv.ParseUint(piv, 16, 8)
+	var err error
+	p := hx.Try(func() { err = s.ParseReadBox(byte(v), nil) })
+	switch {
+	case p != "":
+		return "p"
+	case err != nil:
+		return "e/" + sencDig(s)
+	}
+	return "o/" + sencDig(s)
+}
+
+// cmdCorrSencDecoded: senc boxes as the two decoders and the second decoding phase (ParseReadBox) leave them, then a
+// history of Size / Info / Encode / EncodeSW; the model decodes the same bytes (senc_decode, senc_parse)
+func cmdCorrSencDecoded(r *hx.Rng, n int) {
+	for i := 0; i < n; i++ {
+		pl, made := genSencPayload(r)
+		box, size, hlen := sencBoxBytes(pl, r.Intn(5) == 0)
+		piv := pivChoice(r, made)
+		ops := sencOps(r)
+		var obs [2]string
+		for v := 0; v < 2; v++ {
+			s, oc := decodeSenc(box, v == 1)
+			if s == nil {
+				obs[v] = oc
+				continue
+			}
+			po := sencParse(s, piv)
+			if po == "p" {
+				obs[v] = "D p"
+				continue
+			}
+			obs[v] = "D " + po + " " + sencHistory(s, ops)
+		}
+		corrStats["cases senc (decoded from generated bytes)"]++
+		if obs[0] != obs[1] {
+			// the two decoders must leave the same box: reported as a model mismatch on the second line
+			corrStats["senc decoders differ"]++
+		}
+		if strings.Contains(obs[0], " o/") {
+			corrStats["senc decoded and parsed"]++
+		}
+		for v := 0; v < 2; v++ {
+			fmt.Fprintf(out, "A\tsx%d.%d\tsencd\t%s\t%x\t%s\t%s\t%s\t%s\n", i, v, hx.HexU(size), hlen, hx.Hex(pl), piv, ops, obs[v])
+		}
+	}
 }
 
 func cmdCorrSenc(r *hx.Rng, n int, repo string) {
@@ -1016,7 +1220,7 @@ func cmdCorrSenc(r *hx.Rng, n int, repo string) {
 		if len(outc) == 0 {
 			outc = []byte{'-'}
 		}
-		ops := genOps(r)
+		ops := sencOps(r)
 		if i%4 == 3 {
 			// the malformed stream: fields poked after the box was built; emitted as fields
 			switch r.Intn(6) {
@@ -1075,7 +1279,7 @@ func cmdCorrSenc(r *hx.Rng, n int, repo string) {
 				if t.bytes > maxTokBytes {
 					continue
 				}
-				ops := genOps(r)
+				ops := sencOps(r)
 				obs := sencHistory(s, ops)
 				corrStats["cases senc (decoded)"]++
 				nd++
